@@ -589,12 +589,14 @@ fn cmd_stress_metrics(args: &[String]) {
         decreased += d;
         reads += k;
     }
-    let final_count = r.message_count();
-    let snap = r.metrics();
+    // read the final values only after the actor has ended: the guard of the last handler may still be about to
+    // record when its reply has already been received
     rt.block_on(async {
         let _ = r.stop().await;
         let _ = jh.await;
     });
+    let final_count = r.message_count();
+    let snap = r.metrics();
     println!(
         "{}",
         serde_json::json!({"readers": readers, "asks": n, "handled": handled, "message_count": final_count, "snapshot_count": snap.message_count,
